@@ -193,7 +193,7 @@ def check_metric(run, pts, recs, presentation="tensors"):
     for k, (i, j) in enumerate(S):
         gam[i, j] = gam[j, i] = fieldof(lambda p, k=k: p["g"][k])
         K[i, j] = K[j, i] = fieldof(lambda p, k=k: p["k"][k])
-    rel = core.AurelCore(fd, verbose=False)
+    rel = core.AurelCore(fd, verbose=False, clear_cache_every_nbr_calc=10 ** 6)     # keep everything: the second pass re-reads it
     rel.data["alpha"] = fieldof(lambda p: p["a2"] / 2)
     beta = np.array([fieldof(lambda p, i=i: p["b"][i] / 2) for i in range(3)])
     if presentation == "tensors":
@@ -213,43 +213,46 @@ def check_metric(run, pts, recs, presentation="tensors"):
     fr = lambda x: Fraction(x[0], x[1])
     keys = {"betadown3": (3,), "gammadet": (), "gammaup3": (3, 3), "betamag": (), "gtt": (), "gdet": (), "nup4": (4,), "Ktrace": (),
             "Kup3": (3, 3), "Adown3": (3, 3)}
-    for key, shp in keys.items():
-        got = rel[key].reshape(shp + (tot,))
-        for k in range(n):
-            o = by[k + 1][key]
-            want = np.array([float(fr(x)) for x in o]).reshape(shp) if shp else float(fr(o))
-            g = got[..., k]
-            run.count(("metric", key, k))
-            if np.abs(g - want).max() > 1e-11 * max(1.0, np.abs(want).max()):
-                run.violation({"clause": "MetricAlgebra", "key": key, "inputs": presentation},
-                              f"[inputs given as {presentation}] rel[{key!r}] at the grid point with inputs {pts[k]} = {np.asarray(g).round(10).tolist()}, exact value "
-                              f"{np.asarray(want).round(10).tolist()}", {"point": pts[k], "key": key})
-                break
-    # identities on the code's outputs at every grid point
-    at = lambda v: v
-    g4 = rel["gdown4"]
-    gu4 = rel["gup4"]
-    ident = np.einsum("ab...,bc...->ac...", gu4, g4) - np.eye(4)[(...,) + (None,) * 3]
-    checks = {
-        "g^-1 g = 1 (4-D)": np.abs(ident).max(),
-        "gamma^-1 gamma = 1": np.abs(np.einsum("ab...,bc...->ac...", rel["gammaup3"], gam) - np.eye(3)[(...,) + (None,) * 3]).max(),
-        "g_ti = beta_i": np.abs(g4[0, 1:] - rel["betadown3"]).max(),
-        "det g = -alpha^2 det gamma": np.abs(rel["gdet"] + rel["alpha"] ** 2 * rel["gammadet"]).max() / np.abs(rel["gdet"]).max(),
-        "n.n = -1": np.abs(np.einsum("ab...,a...,b...->...", g4, rel["nup4"], rel["nup4"]) + 1).max(),
-        "n_mu gamma^mu_nu = 0": np.abs(np.einsum("a...,ab...->b...", rel["ndown4"], rel["gammaup4"])).max(),
-        "n_mu = g_mu_nu n^nu": np.abs(np.einsum("ab...,b...->a...", g4, rel["nup4"]) - rel["ndown4"]).max(),
-        "A trace-free": np.abs(np.einsum("ab...,ab...->...", rel["gammaup3"], rel["Adown3"])).max(),
-        "Aup3 = raised Adown3": np.abs(rel["Aup3"] - np.einsum("ia...,jb...,ab...->ij...", rel["gammaup3"], rel["gammaup3"], rel["Adown3"])).max(),
-        "det conformal metric = 1": np.abs(np.linalg.det(np.moveaxis(rel["gammadown3_bssnok"], (0, 1), (-2, -1))) - 1).max(),
-        "conformal inverse": np.abs(np.einsum("ab...,bc...->ac...", rel["gammaup3_bssnok"], rel["gammadown3_bssnok"]) - np.eye(3)[(...,) + (None,) * 3]).max(),
-        "Adown3_bssnok = psi^-4 A": np.abs(rel["Adown3_bssnok"] - rel["gammadet"] ** (-1 / 3) * rel["Adown3"]).max(),
-        "A2_bssnok = A_ij A^ij": np.abs(rel["A2_bssnok"] - np.einsum("ab...,ab...->...", rel["Adown3"], rel["Aup3"])).max() / (1 + np.abs(rel["A2_bssnok"]).max()),
-        "gammadown4 spatial block": np.abs(rel["gammadown4"][1:, 1:] - gam).max(),
-    }
-    for name, err in checks.items():
-        run.count(("identity", name))
-        if not np.isfinite(err) or err > 1e-9:
-            run.violation({"clause": "Identity", "identity": name, "inputs": presentation}, f"[inputs given as {presentation}] identity '{name}' fails on the grid of {n} exact input points: max deviation {err:.3g}", {})
+    # two passes: the second one after every quantity (gammadown4, the conformal ones, ...) has been requested once, so that
+    # an entry overwritten in place by a later request is seen
+    for npass, when in enumerate(("", " [second pass, after every quantity was requested once]")):
+        for key, shp in keys.items():
+            got = rel[key].reshape(shp + (tot,))
+            for k in range(n):
+                o = by[k + 1][key]
+                want = np.array([float(fr(x)) for x in o]).reshape(shp) if shp else float(fr(o))
+                g = got[..., k]
+                run.count(("metric", key, k))
+                if np.abs(g - want).max() > 1e-11 * max(1.0, np.abs(want).max()):
+                    run.violation({"clause": "MetricAlgebra", "key": key, "inputs": presentation, "pass": npass},
+                                  f"[inputs given as {presentation}]{when} rel[{key!r}] at the grid point with inputs {pts[k]} = {np.asarray(g).round(10).tolist()}, exact value "
+                                  f"{np.asarray(want).round(10).tolist()}", {"point": pts[k], "key": key})
+                    break
+        # identities on the code's outputs at every grid point
+        at = lambda v: v
+        g4 = rel["gdown4"]
+        gu4 = rel["gup4"]
+        ident = np.einsum("ab...,bc...->ac...", gu4, g4) - np.eye(4)[(...,) + (None,) * 3]
+        checks = {
+            "g^-1 g = 1 (4-D)": np.abs(ident).max(),
+            "gamma^-1 gamma = 1": np.abs(np.einsum("ab...,bc...->ac...", rel["gammaup3"], gam) - np.eye(3)[(...,) + (None,) * 3]).max(),
+            "g_ti = beta_i": np.abs(g4[0, 1:] - rel["betadown3"]).max(),
+            "det g = -alpha^2 det gamma": np.abs(rel["gdet"] + rel["alpha"] ** 2 * rel["gammadet"]).max() / np.abs(rel["gdet"]).max(),
+            "n.n = -1": np.abs(np.einsum("ab...,a...,b...->...", g4, rel["nup4"], rel["nup4"]) + 1).max(),
+            "n_mu gamma^mu_nu = 0": np.abs(np.einsum("a...,ab...->b...", rel["ndown4"], rel["gammaup4"])).max(),
+            "n_mu = g_mu_nu n^nu": np.abs(np.einsum("ab...,b...->a...", g4, rel["nup4"]) - rel["ndown4"]).max(),
+            "A trace-free": np.abs(np.einsum("ab...,ab...->...", rel["gammaup3"], rel["Adown3"])).max(),
+            "Aup3 = raised Adown3": np.abs(rel["Aup3"] - np.einsum("ia...,jb...,ab...->ij...", rel["gammaup3"], rel["gammaup3"], rel["Adown3"])).max(),
+            "det conformal metric = 1": np.abs(np.linalg.det(np.moveaxis(rel["gammadown3_bssnok"], (0, 1), (-2, -1))) - 1).max(),
+            "conformal inverse": np.abs(np.einsum("ab...,bc...->ac...", rel["gammaup3_bssnok"], rel["gammadown3_bssnok"]) - np.eye(3)[(...,) + (None,) * 3]).max(),
+            "Adown3_bssnok = psi^-4 A": np.abs(rel["Adown3_bssnok"] - rel["gammadet"] ** (-1 / 3) * rel["Adown3"]).max(),
+            "A2_bssnok = A_ij A^ij": np.abs(rel["A2_bssnok"] - np.einsum("ab...,ab...->...", rel["Adown3"], rel["Aup3"])).max() / (1 + np.abs(rel["A2_bssnok"]).max()),
+            "gammadown4 spatial block": np.abs(rel["gammadown4"][1:, 1:] - gam).max(),
+        }
+        for name, err in checks.items():
+            run.count(("identity", name))
+            if not np.isfinite(err) or err > 1e-9:
+                run.violation({"clause": "Identity", "identity": name, "inputs": presentation, "pass": npass}, f"[inputs given as {presentation}]{when} identity '{name}' fails on the grid of {n} exact input points: max deviation {err:.3g}", {})
     if presentation != "tensors":
         run.traces += 1
         return
